@@ -6,6 +6,13 @@ import glob, json, os, re
 
 ROOT = "/verif/seeded"
 NOTES = {
+    "C05-m6": "CALLCODE executed as DELEGATECALL pops six operands instead of seven: the stack-effect sweep of the SymVM check reports it "
+              "as Inv_C17_Demand (./check C17), which shares the specification; the layouts C05 looks at are unaffected on the generated programs",
+    "C03-m7": "unification remembers only the last four forests: rings of five or more packed encodings rotate for ever. The author found no "
+              "bytecode that produces such a ring; the judgement-level check of C14 (Inv_C14_Terminates, pure rings of 5-16 encodings) reports it",
+    "C08-m8": "needs code longer than 24 576 bytes; the TLC acceptors that hold the whole code are super-quadratic in its length (DESIGN §4 C08, §9)",
+    "C11-m7": "needs a slot constant made of printable bytes and 0x7f hashed only with constants; the pinned tree already treats genuinely "
+              "printable constants specially there, so the relation C11 demands would need a finding of its own; not pursued",
     "C02-m2": "written against a tree without the fold_shape ordering fix (ccf2efc); on the current tree the changed merge is "
               "deterministic (the word always lands in the first-sorted span): the demo still fails, but on its final assertion about "
               "the expected layout, not on run-to-run difference, so the change no longer breaks C02 and is not counted",
